@@ -27,12 +27,15 @@ def crash_sig(exc):
     zf = [f for f in frames if "/ZConfig/" in f.filename]
     names = [(f.filename.rsplit("/", 1)[-1][:-3], f.name) for f in zf]
     tname = type(exc).__name__
+    ctx = exc.__context__
     if tname == "TypeError" and names and names[-1][0] == "cfgparser" and \
-            any(n == ("cmdline", "finish_optionbag") for n in names):
-        # (url, line, col) handed over where (line, col, url) is consumed
+            ctx is not None and isinstance(getattr(ctx, "lineno", None), str):
+        # a command-line position (url, line, col) was stored where
+        # (line, col, url) is consumed: lineno is the url string
         return "C07:override-position-order"
-    if tname == "ValueError" and ("cmdline", "__init__") in names and \
-            not any(n[1] in ("add_value", "get_section_info") for n in names):
+    outer = [n for n in names if n[0] != "datatypes"]
+    if tname == "ValueError" and outer and outer[-1] == ("cmdline", "__init__"):
+        # OptionBag.__init__ applies the key type to a path component bare
         return "C07:override-keytype-valueerror"
     where = "%s.%s" % names[-1] if names else "?"
     return "C07:%s@%s" % (tname, where)
@@ -50,7 +53,7 @@ def real_load(ZConfig, schema, text, overrides=()):
     return ("ok", cfg, handler)
 
 
-_quoted = re.compile(r"""'[^']*'|"[^"]*"|\d+""")
+_quoted = re.compile(r"""0x[0-9a-fA-F]+|'[^']*'|"[^"]*"|\d+""")
 
 
 def msg_template(exc):
@@ -185,7 +188,7 @@ def _work(job):
 
 
 def run(tier, seed):
-    nschemas, ntexts = (480, 40) if tier == "quick" else (4800, 80)
+    nschemas, ntexts = (3000, 50) if tier == "quick" else (40000, 60)
     col = Collector()
     kinds = {}
     for part in pmap(_work, [(seed, i, ntexts) for i in range(nschemas)]):
